@@ -19,9 +19,10 @@ def run(chk, replay):
     chk.trusted = common.TRUSTED_COMMON + ["quiescence discipline of the scheduler harness (one completion released at a time)"]
     chk.assumptions = [sched.NOTES.get(PROP, "")]
     common.lean_obligations(chk, "BdModel/Props/%s.lean" % PROP,
-                            {"Sched": sched.SCHED_TIE, "Graph": sched._ties_of("Graph"), "Agent": tie_names("Agent")},
+                            {"Sched": sched.SCHED_TIE, "Graph": sched._ties_of("Graph"), "Agent": tie_names("Agent"), "Load": sched.LOAD_TIES_FOR_SCHED},
                             extra_targets=["BdModel.Sched.Tables"])
     sched.run_stream(chk, PROP, replay)
+    sched.yaml_stream(chk, PROP, replay)
     if not replay:
         import p_c08
         p_c08.agent_level(chk, PROP, 40 if chk.tier == "quick" else 400)
